@@ -321,8 +321,13 @@ class CFG:
                     cache["n"] = start
                     fend = self._block(s.finalbody, [(start, "next")], ctx)
                     tgt = target_fn()
-                    for (a, label) in fend:
-                        self._edge(a, "exc" if how == "exc" else label, tgt)
+                    if fend:
+                        # keep the T/F labels of the finally body's last
+                        # tests: go through a join node
+                        j = self._new("join", None, {"finally_end": s,
+                                                     "how": how})
+                        self._connect(fend, j)
+                        self._edge(j, "exc" if how == "exc" else "next", tgt)
                 return cache["n"]
             return get
 
